@@ -567,6 +567,10 @@ class ProgGen:
         r = self.rng
         if not self.allow_partials:
             return self.n_output(depth)
+        if r.random() < 0.06:   # which of two failures is reported (missing partial vs failing argument)
+            tag = r.choice(["include", "render"])
+            return self.tag(f"{tag} 'nope/none.html', item: {r.choice(['products[ghost]', 'user[ghost.x]', 'h[missing_key]', 'nums[user.nope]', 'ghost.x'])}"
+                            + r.choice(["", f", who: {r.choice(['words[ghost]', 'user.nope.x', 'h[nothing.k]'])}"]))
         name = self.partial_name()
         if r.random() < 0.97:
             self.ensure_partial(name, depth + 1)
@@ -614,7 +618,8 @@ class ProgGen:
         if r.random() < 0.7:
             args.append(f"who: {self.primitive()}")
         s = self.tag(("translate " + ", ".join(args)).rstrip())
-        s += "Hello {{ who }} " + r.choice(["", "{{ count }} "]) + ("{{ user.name }}" if r.random() < 0.02 else "")
+        s += "Hello {{ who }} " + r.choice(["", "{{ count }} "]) + ("{{ user.name }}" if r.random() < 0.02 else "") \
+            + r.choice(["", "", "{{ context }} ", "{{ n }}{{ s }} "])   # reserved names used as placeholders
         if r.random() < 0.5:
             s += self.tag("plural") + "Hellos {{ who }} x{{ count }}"
         return s + self.tag("endtranslate")
@@ -629,7 +634,9 @@ class ProgGen:
         base = "<html>"
         for b in blocks:
             req = " required" if (b == "content" and r.random() < 0.2) else ""
-            blk = self.tag(f"block {b}{req}") + f"base-{b} " + self.block(self.max_depth - 1, 1) + self.tag("endblock")
+            blk = self.tag(f"block {b}{req}") + f"base-{b} " + self.block(self.max_depth - 1, 1) \
+                + (self.out(r.choice(["block.super", "block.super | upcase", "block.nope"])) if r.random() < 0.15 else "") \
+                + self.tag("endblock")
             if r.random() < 0.3:   # a block inside a loop: loop-iteration carry into overrides
                 blk = self.tag("for bi in " + r.choice(["(1..3)", "products", "nums", "(1..m)"])) + blk + self.tag("endfor")
             elif r.random() < 0.15:
